@@ -161,13 +161,13 @@ func Run(id string, start time.Time) int {
 
 	// coverage of the reflection-driven field comparison
 	fieldMu.Lock()
-	var never []string
+	never := []string{}
 	for _, f := range TaskFields() {
 		if !mergePopulated[f] && fieldNonZero[f] == 0 {
 			never = append(never, f)
 		}
 	}
-	var opaque []string
+	opaque := []string{}
 	for k := range opaqueTypes {
 		opaque = append(opaque, k)
 	}
@@ -333,6 +333,24 @@ func runTree(part *h.Partial, bin, scratch string, t *Tree, maxNames int) {
 				}
 			}
 			part.Count("listed_names", int64(len(lj.Tasks)))
+		}
+	}
+
+	// ---- (2c) names removed by excludes must not be callable
+	for i, ex := range m.Excl {
+		if _, ok := m.ByName[ex.Name]; ok || i >= 6 {
+			continue // the name denotes another task (that is what excludes is for), or enough
+		}
+		r := h.CLI{Bin: bin, Dir: dir, Args: []string{"--silent", ex.Name}}.Run()
+		part.Eval(t.Hash+"|excluded|"+ex.Name, true)
+		part.Count("excluded_names_run", 1)
+		if r.TimedOut {
+			part.Inconc(fmt.Sprintf("tree %d name %s: watchdog", t.Index, ex.Name))
+			continue
+		}
+		if obs := parseLines(r.Stdout); r.Exit == 0 || len(obs) > 0 {
+			report(Finding{fmt.Sprintf("C08 | run.excluded-callable | depth=%d", len(ex.Chain)), fmt.Sprintf("task %q is excluded by its include but `task %s` exited %d and printed %d probe lines", ex.Name, ex.Name, r.Exit, len(obs))},
+				map[string]any{"call": ex.Name, "exit": r.Exit, "stdout": h.Truncate(r.Stdout, 800), "stderr": h.Truncate(r.Stderr, 800)})
 		}
 	}
 
